@@ -12,6 +12,8 @@
 #include <functional>
 #include <mutex>
 #include <sys/mman.h>
+#include <pthread.h>
+#include <cerrno>
 
 extern "C" int m_set_memhook(void *(*_malloc)(size_t), void *(*_calloc)(size_t, size_t), void (*_free)(void *));
 
@@ -28,6 +30,9 @@ struct State {
     bool misaligned = false;                 // hand out 16- but not 32-byte aligned blocks
     long fail_at = -1;                       // allocation index that returns NULL (-1: never)
     bool fail_next_malloc = false;           // the next malloc-hook call (not calloc) is refused once: injected allocator fault
+    long fail_countdown = 0;                 // > 0: the fail_countdown-th allocation from now on made by thread fail_thread is refused once (errno = ENOMEM, as malloc does)
+    pthread_t fail_thread;
+    bool fail_fired = false;
     void *last_alloc = nullptr;              // most recent pointer handed out
     size_t last_alloc_size = 0;
     std::unordered_map<void *, size_t> huge;  // mmap-backed allocations
@@ -41,6 +46,7 @@ inline void *raw_alloc(size_t sz, bool zero) {
     std::lock_guard<std::recursive_mutex> lk(mtx());
     State &s = st();
     if (s.fail_at >= 0 && (long)s.n_alloc == s.fail_at) { s.n_alloc++; return nullptr; }
+    if (s.fail_countdown > 0 && pthread_equal(s.fail_thread, pthread_self()) && --s.fail_countdown == 0) { s.fail_fired = true; errno = ENOMEM; return nullptr; }
     void *p;
     if (sz >= ((size_t)1 << 30)) {
         // huge requests (sizes that do not fit 32 bits are part of C10's domain): address space only, pages are touched by nobody
@@ -82,6 +88,8 @@ inline void t_free(void *p) {
     else if (s.misaligned) free((char *)p - 16); else free(p);
 }
 
+inline void arm_refusal(long k) { std::lock_guard<std::recursive_mutex> lk(mtx()); st().fail_countdown = k; st().fail_thread = pthread_self(); st().fail_fired = false; }
+inline bool disarm_refusal() { std::lock_guard<std::recursive_mutex> lk(mtx()); st().fail_countdown = 0; return st().fail_fired; }
 inline void install() { m_set_memhook(t_malloc, t_calloc, t_free); }
 inline size_t live_count() { return st().live.size(); }
 inline bool is_live(void *p) { return st().live.count(p) != 0; }
